@@ -25,6 +25,8 @@ Explains(e) ==
      \/ e.op = "conv"       /\ e.fu = e.u /\ e.uf = e.u /\ e.uf_off = 0 /\ e.fl = e.u /\ e.lu = e.u /\ e.lf = e.u /\ e.lf_off_same /\ e.ul = e.u
                             /\ e.nd = e.u.n /\ e.dn = [n |-> e.u.n, secs |-> 0, frac |-> 0]
                             /\ e.eq_x /\ e.cmp_x /\ J(e.since_x) = Zero /\ J(e.since_l) = Zero
+                            /\ J(e.sys) = Ns(e.u)                                       \* the system clock type: the same count of nanoseconds (a leap second runs on)
+                            /\ Ns(e.sys_back) = Ns(e.u)
      \/ e.op = "defaults"   /\ LET ep == [n |-> DayNumber(1970, 1, 1), secs |-> 0, frac |-> 0] IN
                                /\ e.utc = ep /\ e.fixed = ep /\ e.fixed_off = 0 /\ e.local = ep /\ e.ndt = ep /\ e.date = ep.n /\ e.time = [secs |-> 0, frac |-> 0] /\ e.epoch = ep
                                /\ e.min = [n |-> MinDay, secs |-> 0, frac |-> 0] /\ e.max = [n |-> MaxDay, secs |-> 86399, frac |-> 999999999]
